@@ -243,6 +243,17 @@ def _protect(ctx, d, pgpy):
                 ctx.fail('right-passphrase-does-not-unlock', {'case': d, 'form': form})
             _use(ctx, pgpy, kk, names, {'case': d, 'form': form})
         locked_invariants(ctx, kk, names, 'after unlock scope (%s)' % form)
+    # protect again with the very same passphrase, cipher and hash (fresh salt and IV expected): export must still open for others
+    with k.unlock(pw):
+        k.protect(pw, getattr(SymmetricKeyAlgorithm, d['cipher']), getattr(HashAlgorithm, d['hash']))
+    blob2 = _check_export_hides(ctx, k, names, dict(where, again=True))
+    _ref_recover(ctx, blob2, names, pw, dict(where, again='same passphrase, cipher and hash'))
+    k3 = pgpy.PGPKey.from_blob(blob2)[0]
+    try:
+        with k3.unlock(pw):
+            _use(ctx, pgpy, k3, names, dict(where, again='reimported after re-protect'))
+    except Exception as e:
+        ctx.fail('reprotected-key-cannot-be-unlocked-after-reimport', dict(where, err='%s: %s' % (type(e).__name__, str(e)[:120])))
     ctx.nontrivial(d)
     if len(ctx.samples) < 3:
         ctx.sample({'case': d, 'protected_export_octets': len(blob)})
@@ -361,9 +372,10 @@ def _history(ctx, d, pgpy):
             except PGPDecryptionError:
                 ctx.count('wrong_passphrase_rejected')
         elif op == 'reprotect_inside' and model['protected']:
-            pw2 = r.choice(['n1', 'n2 日'])
+            # change-passphrase flow; half of the time the very same passphrase (and often the same cipher) is used again
+            pw2 = r.choice(['n1', 'n2 日', model['pw'], model['pw']])
             with k.unlock(model['pw']):
-                k.protect(pw2, getattr(SymmetricKeyAlgorithm, r.choice(PCIPHERS)), HashAlgorithm.SHA256)
+                k.protect(pw2, getattr(SymmetricKeyAlgorithm, r.choice(PCIPHERS[:3] if pw2 == model['pw'] else PCIPHERS)), HashAlgorithm.SHA256)
             model['pw'] = pw2
             _ref_recover(ctx, bytes(k), names, pw2, where)
         elif op == 'export_import':
